@@ -119,6 +119,7 @@ def plan_C01(run):
     # behaviours of the state machine (incl. the owner reconfiguring a used model between calls) replayed on live objects
     sequences_stage(run, {"C01"})
     campaign(run, "integer-grid", {"C01"}, lambda s, r: drivers.integer_grid_rate(s, r))
+    construct_stage(run, {"C01"})
     return {"rule": "random rate() calls over the full numeric domain (2-8 teams x 1-8 players, five models, "
                     "configurations, every encoding of the outcome); distinct = distinct coverage-class vectors "
                     "(model, n, tie pattern, shape class, encoding, options, floor/clamp/guard regime)",
@@ -200,6 +201,7 @@ def plan_C06(run):
     run.require_classes(RATE_CLASSES, "rate-campaign")
     # league histories: every step validated from the observed pre-state, which must be the previous post-state
     campaign(run, "leagues", {"C06"}, lambda s, r: drivers.leagues(s, r, q(run, 15, 48), q(run, 30, 120), q(run, 100, 800), predictions=False))
+    construct_stage(run, {"C06"})
     return {"rule": "random rate() calls; sigma bounds per game",
             "assumptions": ["strict positivity is not demanded for a player whose prior sigma is 0 under limit_sigma (clamped to the prior)"]}
 
@@ -291,6 +293,7 @@ def plan_C12(run):
     # predictions on live, repeatedly re-rated objects of one model (caches keyed by identity or id would show here)
     campaign(run, "leagues", {"C12"}, lambda s, r: drivers.leagues(s, r, q(run, 15, 80), q(run, 12, 40), q(run, 60, 400)))
     campaign(run, "integer-grid", {"C12"}, lambda s, r: drivers.integer_grid(s, r, ("win", "draw", "rank")))
+    construct_stage(run, {"C12"})
     return {"rule": "all three predictions on random games against the 40-digit closed forms of Predict.tla, 1e-9 absolute",
             "assumptions": ["predict_rank on two teams uses n*beta^2 (the n-team form); band probability as coded (DESIGN 3.2)"]}
 
@@ -384,6 +387,14 @@ def sequences_stage(run, want):
     mc.sequences(run, ALL_KINDS[run.seed % 5], q(run, 1, 2), want)
 
 
+def construct_stage(run, want):
+    """Model construction as an operation: the arguments given (or omitted) against what the object holds (Sem!Construct),
+    then the model in use.  Clauses <prop>.model_not_as_constructed:<attr> belong to every property that speaks of that attribute."""
+    n = q(run, 60, 1500)
+    campaign(run, "construct", want, lambda s, r: drivers.construct_campaign(s, r, n))
+    run.require_classes(["op=new_model"], "construct")
+
+
 def plan_C14(run):
     # unbounded: TLAPS proves the two thread theorems of Threads.tla for any number of threads and reads (auxiliary)
     mc.tlaps_threads(run)
@@ -412,6 +423,7 @@ def plan_C15(run):
     run.require_classes(["group:C15:effopts", "clamp", "limit", "kind=PL", "kind=BTF", "kind=BTP", "kind=TMF", "kind=TMP"], "effopts-groups")
     # behaviours of the state machine (incl. the owner reconfiguring a used model between calls) replayed on live objects
     sequences_stage(run, {"C15"})
+    construct_stage(run, {"C15"})
     return {"rule": "M(tau=t, limit_sigma=b).rate(g) against M(other).rate(g, tau=t, limit_sigma=b), each option alone, and explicit None; "
                     "t in {0, 0.0, 1e-9 beta, default, 10 beta, random}; bit-identical results"}
 
@@ -423,6 +435,7 @@ def plan_C16(run):
     n = q(run, 100, 2000)
     campaign(run, "scale-groups", {"C16"}, lambda s, r: drivers.scale_groups(s, r, n))
     run.require_classes(["group:C16:scaled", "group:C16:shifted"], "scale-groups")
+    construct_stage(run, {"C16"})
     return {"rule": "games rescaled by k in {2^-10, 2^10, 1e-3, 0.3, 7, 1e3, random} (model mu/sigma/beta/tau with them) and "
                     "shifted by constants; rate for PL/BT within twice the budget, all predictions within 1e-12"}
 
@@ -459,6 +472,7 @@ def plan_C19(run):
     campaign(run, "api", {"C19"}, lambda s, r: drivers.api_groups(s))
     campaign(run, "hashes", {"C19"}, lambda s, r: drivers.object_campaign(s, r, q(run, 40, 400)))
     run.require_classes(["group:C19:model", "group:C19:same", "op=api", "op=hash", "op=cmp"], "model-groups")
+    construct_stage(run, {"C19"})
     return {"rule": "the same call (rate and the three predictions, value-identical ratings, same parameters) on all five classes; "
                     "operation tables and signatures compared; hashes of equal (id, mu, sigma) compared across classes"}
 
@@ -470,6 +484,7 @@ def plan_C20(run):
     campaign(run, "twin-leagues", {"C20"}, lambda s, r: drivers.restore_groups(s, r, n))
     campaign(run, "leagues", {"C20"}, lambda s, r: drivers.leagues(s, r, q(run, 15, 80), q(run, 10, 40), q(run, 40, 300), twin=True, prop="C20"))
     run.require_classes(["op=rating", "op=create", "op=deepcopy", "group:C20:same"], "object-campaign")
+    construct_stage(run, {"C20"})
     return {"rule": "constructors with None/0/-0.0/negative/huge values and names; deepcopy of ratings and nested lists; twin leagues "
                     "(live objects vs rebuilt from stored (mu, sigma) by create_rating / rating / deepcopy before every game)"}
 
